@@ -3,6 +3,7 @@ package props
 import (
 	"fmt"
 	"os"
+	"sort"
 	"time"
 
 	"github.com/pion/rtcp"
@@ -66,6 +67,14 @@ func (c10) Gen(seed int64, tier string, avoid []string) *Plan {
 	ops := opsOf[RigOp](p)
 	for i := range ops {
 		ops[i].W = r.Intn(2)
+	}
+	if len(ops) > 0 && chance(r, 400) {
+		// streams that appear later: bound by the lifecycle goroutine in the middle of the traffic
+		last := ops[len(ops)-1].AtUs
+		for k := 1 + r.Intn(2); k > 0; k-- {
+			ops = append(ops, RigOp{K: "bn", AtUs: r.Int63n(last + 1), HS: r.Int63()})
+		}
+		sort.SliceStable(ops, func(i, j int) bool { return ops[i].AtUs < ops[j].AtUs })
 	}
 	setOps(p, ops)
 	return p
